@@ -15,6 +15,7 @@ let z10 = z_of_int 10
 
 (* arbitrary precision decimal parse through the extracted arithmetic *)
 let z_of_string (s : string) : z =
+  if String.length s <= 17 then (match int_of_string_opt s with Some n -> z_of_int n | None -> failwith ("bad int: " ^ s)) else
   let neg, start = if String.length s > 0 && s.[0] = '-' then (true, 1) else (false, 0) in
   let acc = ref Z0 in
   for i = start to String.length s - 1 do
@@ -30,9 +31,13 @@ let rec int_of_pos (p : positive) : int =
 let small_int_of_z (x : z) : int =
   match x with Z0 -> 0 | Zpos p -> int_of_pos p | Zneg p -> - (int_of_pos p)
 
+let rec pos_bits (p : positive) : int = match p with XH -> 1 | XO q | XI q -> 1 + pos_bits q
+
 let string_of_z (x : z) : string =
+  let small = (match x with Z0 -> true | Zpos p | Zneg p -> pos_bits p <= 61) in
+  if small then string_of_int (small_int_of_z x) else
   let neg, a = (match x with Zneg p -> (true, Zpos p) | _ -> (false, x)) in
-  if a = Z0 then "0" else begin
+  begin
     let buf = Buffer.create 20 in
     let cur = ref a in
     let digits = ref [] in
@@ -83,6 +88,76 @@ let () =
   reg "c20.coords_to_cell_name" (fun a -> match a with
     | [c; r; ab] -> show_res hex_of_bytes (coords_to_cell_name (z_of_string c) (z_of_string r) (bool_of_arg ab)) | _ -> "bad-args")
 
+
+(* floats cross the boundary as 16 hex digits (IEEE-754 bits) *)
+let float_of_hexbits (s : string) : Float64.t =
+  Float64.of_float (Int64.float_of_bits (Int64.of_string ("0x" ^ s)))
+let hexbits_of_float (x : Float64.t) : string =
+  Printf.sprintf "%016Lx" (Int64.bits_of_float (Float64.to_float x))
+
+let show_fields (((((((y, m), d), h), mi), s), ns)) =
+  String.concat " " (List.map string_of_z [y; m; d; h; mi; s; ns])
+
+let () =
+  reg "c19.encode" (fun a -> match a with
+    | [sys; y; m; d; ns] ->
+      let s = bool_of_arg sys and y = z_of_string y and m = z_of_string m and d = z_of_string d and ns = z_of_string ns in
+      (match encode_float s y m d ns with
+       | Some x -> "ok " ^ hexbits_of_float x ^ " " ^ str_bool (is_num s y m d ns x)
+       | None -> "outoffuel")
+    | _ -> "bad-args");
+  reg "c19.exact" (fun a -> match a with
+    | [sys; y; m; d; ns] ->
+      (match encode_exact (bool_of_arg sys) (z_of_string y) (z_of_string m) (z_of_string d) (z_of_string ns) with
+       | Some (w, r) -> "ok " ^ string_of_z w ^ " " ^ string_of_z r
+       | None -> "outoffuel")
+    | _ -> "bad-args");
+  reg "c19.decode" (fun a -> match a with
+    | [sys; bits] -> "ok " ^ show_fields (decode_float (bool_of_arg sys) (float_of_hexbits bits))
+    | _ -> "bad-args");
+  reg "c19.days_of_civil" (fun a -> match a with
+    | [y; m; d] -> string_of_z (days_of_civil (z_of_string y) (z_of_string m) (z_of_string d))
+    | _ -> "bad-args");
+  reg "c19.civil_of_days" (fun a -> match a with
+    | [n] -> let ((y, m), d) = civil_of_days (z_of_string n) in String.concat " " (List.map string_of_z [y; m; d])
+    | _ -> "bad-args");
+  reg "c19.excel_serial_spec" (fun a -> match a with
+    | [y; m; d] -> string_of_z (excel_serial_spec (z_of_string y) (z_of_string m) (z_of_string d))
+    | _ -> "bad-args")
+
+(* ---- sheet histories ---- *)
+let parse_op (tok : string) : op =
+  match String.split_on_char ',' tok with
+  | ["S"; c; r; t; v] -> OSet (z_of_string c, z_of_string r, z_of_string t, bytes_of_hex v)
+  | ["F"; c; r; f] -> OFormula (z_of_string c, z_of_string r, bytes_of_hex f)
+  | ["Y"; c; r; st] -> OStyle (z_of_string c, z_of_string r, z_of_string st)
+  | ["R"; r; st] -> ORowStyle (z_of_string r, z_of_string st)
+  | ["M"; c1; r1; c2; r2] -> OMerge (z_of_string c1, z_of_string r1, z_of_string c2, z_of_string r2)
+  | ["W"] -> OSave
+  | _ -> failwith ("bad op " ^ tok)
+
+let show_obs (((t, v), f), _) st =
+  (* the cached value of a formula cell is not part of the compared projection *)
+  string_of_z t ^ ":" ^ (match f with Some _ -> "x" | None -> hex_of_bytes v) ^ ":" ^ (match f with Some x -> hex_of_bytes x | None -> "-") ^ ":" ^ string_of_z st
+
+let () =
+  reg "sheet.run" (fun a -> match a with
+    | c0 :: r0 :: w :: h :: ops ->
+      let c0 = int_of_string c0 and r0 = int_of_string r0 and w = int_of_string w and h = int_of_string h in
+      let sh = Model_gen.run (List.map parse_op ops) empty_sheet in
+      let buf = Buffer.create 256 in
+      for r = r0 to r0 + h - 1 do
+        for c = c0 to c0 + w - 1 do
+          if Buffer.length buf > 0 then Buffer.add_char buf ' ';
+          Buffer.add_string buf (show_obs (observe sh (z_of_int c) (z_of_int r)) (get_cell_style sh (z_of_int c) (z_of_int r)))
+        done
+      done;
+      Buffer.contents buf
+    | _ -> "bad-args");
+  reg "sheet.rows" (fun a ->
+      let sh = Model_gen.run (List.map parse_op a) empty_sheet in
+      let rows = get_rows (fun c -> c.c_v) sh in
+      "rows " ^ String.concat ";" (List.map (fun r -> String.concat "," (List.map hex_of_bytes r)) rows))
 
 let () =
   try
